@@ -59,8 +59,10 @@ class Link:
         self.d.submit(self.nid, pl)
         self.nid += 1
 
-    def ncp_submit(self):
+    def ncp_submit(self, payload=None):
         pl = bytes([0xB0, len(self.ncp_subm) >> 8, len(self.ncp_subm) & 0xFF]) + _pad(len(self.ncp_subm) + 5)
+        if payload is not None:
+            pl = payload
         self.ncp_subm.append(pl)
         self.ncp.queue.append(pl)
         self.ncp.pump()
@@ -185,13 +187,13 @@ def run_schedule(seed, window, nlabels, fault_rate, cancels, directed=None):
         L.d.close()
 
 
-def run_assignment(window, n_nsub, n_hsub, assign_n2h, assign_h2n):
+def run_assignment(window, n_nsub, n_hsub, assign_n2h, assign_h2n, ncp_payloads=None):
     """small scope: fixed submissions, then the k-th frame delivered on each line gets the k-th action of its
     assignment (deliver afterwards); timeouts fire whenever nothing is in flight"""
     L = Link(window, None)
     try:
-        for _ in range(n_nsub):
-            L.ncp_submit()
+        for k in range(n_nsub):
+            L.ncp_submit(ncp_payloads[k] if ncp_payloads else None)
         for _ in range(n_hsub):
             L.host_submit()
         kn = kh = 0
@@ -457,6 +459,29 @@ class Check(PropertyCheck):
                                            "how": "exhaustive stall x loss assignment on a small scenario, judged end to end"},
                                           found_input=True, signature="link:" + why[:50])
                             return n
+        # payloads that repeat: two byte-identical callbacks of the NCP back to back (two equal stack-status events) are two
+        # sends and are handed up twice, whatever happens to their transmissions
+        A, B = bytes([0xC1, 0x90, 0x19, 0x90]), bytes([0xC2, 0x90, 0x19, 0x91])
+        for window in (1, 2, 3):
+            for pls in ([A, A, B], [B, A, A], [A, A, A]):
+                for a in itertools.product(acts, repeat=min(depth, 4)):
+                    obs = run_assignment(window, 3, 0, a, (), ncp_payloads=pls)
+                    n += 1
+                    why = None
+                    if "crash" in obs:
+                        why = f"raised {obs['crash']}"
+                    elif obs["host_up"] != [p.hex() for p in pls][:len(obs["host_up"])]:
+                        why = f"host-side deliveries {obs['host_up']} are not an in-order prefix of what the NCP submitted"
+                    elif obs.get("ncp_acked_all") and len(obs["host_up"]) != 3:
+                        why = (f"the NCP's three sends (payloads {[p.hex() for p in pls]}) all completed but {len(obs['host_up'])} "
+                               f"payloads were handed up on the host side: {obs['host_up']}")
+                    if why:
+                        rep.violation({"input": {"window": window, "ncp_payloads": [p.hex() for p in pls], "faulty_line": "n2h",
+                                                 "assignment": list(a)},
+                                       "observed": obs, "required": why,
+                                       "how": "exhaustive fault assignment with repeating payloads, judged end to end"},
+                                      found_input=True, signature="link:repeating-payloads")
+                        return n
         # retry-budget boundary: every mix of lost and detectably corrupted transmissions of the first frames
         # (up to the whole budget of one frame and into the next), both directions
         for ln in range(depth + 1, 8):
